@@ -15,7 +15,7 @@ CLAIMS = {
         design="DESIGN.md §4 C01",
     ),
     "C02": dict(
-        text="Bounded SMT checking against an independent reference model: every public accessor/operation of the object backend is executed on z3-term vectors in every coordinate system and z3 decides equality with the documented definition (spec/model.py) for all real operands where the definition is finite (timelike and, for the accessors defined there, spacelike tau-stored operands). IEEE guard lane: the same dispatch entries executed on an order abstraction of IEEE-754 arithmetic (fresh variable per operation, only facts valid for every correctly rounded result); z3 decides for 1802 variants of 66 modules that every argument reaching sqrt/arccos/arcsin is in the domain under every rounding; abstract counterexamples are replayed on the float64 backend with an instrumented numpy.",
+        text="Bounded SMT checking against an independent reference model: every public accessor/operation of the object backend is executed on z3-term vectors in every coordinate system and z3 decides equality with the documented definition (spec/model.py) for all real operands where the definition is finite (timelike and, for the accessors defined there, spacelike tau-stored operands). IEEE guard lane: the same dispatch entries executed on an order abstraction of IEEE-754 arithmetic (fresh variable per operation, only facts valid for every correctly rounded result); z3 decides for 1952 variants of 66 modules that every argument reaching sqrt/arccos/arcsin is in the domain under every rounding, and for 444 variants of 40 modules that a zero first operand (every stored coordinate 0) yields a NaN-free result (0/0 modelled as NaN, nan_to_num guards); abstract counterexamples are replayed on the float64 backend with an instrumented numpy.",
         note="Second operands: Cartesian, same system and one rotating mixed system (all mixes: C01). The 'small multiple of rounding error' clause of the property is not claimed; the guard lane claims only 'no NaN from sqrt/arccos/arcsin for finite operands' (outside: overflow, underflow of squares, zero denominators, arithmetic on infinities; Mt, boost_beta3, boost_p4, gamma, isclose). Known finding: Mt2 of tau-stored spacelike vectors with t^2 < z^2." + COMMON_NOTE,
         design="DESIGN.md §4 C02",
     ),
